@@ -29,6 +29,7 @@ META = {
         "one-shot exactly one send, not before its time and within 1 s after it (at the first poll that lists it when "
         "already past); an injected fault removes only its own occurrence. distinct_nontrivial = distinct event logs at the horizon."
         " Three to five one-shots of one source, all with a positive delay after the same poll."
+        " Schedules carrying both a cron expression and a time, in a list source and in the label source."
     ),
     "assumptions": [
         "timers fire exactly at their deadline (never early) and the wall clock equals the loop clock; local zone is UTC",
@@ -122,7 +123,7 @@ class C15World(SchedWorld):
         # 3. one-shot schedules
         for si in range(nsrc):
             sp = self.sc["sources"][si]
-            specs = [s for s in sp.get("schedules", []) if "at_us" in s] + [e[2] for e in sp.get("edits", []) if e[1] == "add" and "at_us" in e[2]]
+            specs = [s for s in sp.get("schedules", []) if "at_us" in s and "cron" not in s] + [e[2] for e in sp.get("edits", []) if e[1] == "add" and "at_us" in e[2] and "cron" not in e[2]]
             for spec in specs:
                 self._judge_oneshot(si, spec, exp, end, lat)
 
@@ -255,6 +256,13 @@ def scenarios(tier: str) -> List[Dict[str, Any]]:
             shots = [{"tag": f"d{j}_{o}", "at_us": b1 + o * SEC + 250_000} for j, o in enumerate(offs)]
             out.append({"start_us": start, "horizon_min": hz, "latency_us": 0, "level": 0,
                         "sources": [{"kind": "list", "schedules": shots + [alpha[0]]}]})
+        # schedules that carry both a cron expression and a time (past / within the next minute): the cron
+        # expression alone decides, in a list source and in the label source
+        both = [{"tag": "both_past", "cron": "*/2 * * * *", "at_us": start - 10 * SEC},
+                {"tag": "both_soon", "cron": f"{(31 + b1 // MIN_US) % 60} * * * *", "at_us": b1 + 20 * SEC}]
+        for kind in ("list", "label"):
+            out.append({"start_us": start, "horizon_min": hz, "latency_us": 0, "level": 0,
+                        "sources": [{"kind": kind, "schedules": both + [alpha[4]]}]})
         # real LabelScheduleSource
         for st in [(alpha[0], alpha[4]), (alpha[8],), (alpha[3], alpha[6], alpha[2]), (alpha[9], alpha[10])]:
             for lat in (0, 400_000):
